@@ -210,7 +210,7 @@ def rule_del_range(ctx: RuleContext, p: Program, rid: str) -> None:
     pl = p.method(w, '_prev_last', inherited=False)
     e = [n for n in walk_no_nested(pl.node) if isinstance(n, ast.Return)][0].value
     ix = pl.params[1]
-    ok = isinstance(e, ast.IfExp) and norm(e.test) == f'{ix} > 0' and norm(e.body) == f'{items}[{ix} - 1].last_token' \
+    ok = isinstance(e, ast.IfExp) and norm(e.test) in (f'{ix} > 0', f'0 < {ix}') and norm(e.body) == f'{items}[{ix} - 1].last_token' \
         and norm(e.orelse) == 'self._repeated.placeholder'
     ctx.check(ok, rid, 'models.internal.properties:RepeatedNodeWrapper._prev_last', norm(e)[:140],
               f'_prev_last is `{norm(e)[:140]}`, expected items[i-1].last_token for i > 0 else the placeholder', pl.where,
